@@ -12,9 +12,9 @@ from . import common
 
 WEIGHTS = {
     "C01": {"redox": 3, "hand": 2, "ionic": 1, "mcs-based": 2, "rule-based": 1, "charge-trap": 1},
-    "C02": {"hand": 3, "redox": 1, "mapped": 2, "mcs-based": 1, "stereo": 1},
+    "C02": {"hand": 3, "redox": 1, "mapped": 2, "mcs-based": 1, "stereo": 1, "marker-prefix": 2},
     "C03": {"declined": 3, "carbon-surplus": 1, "mcs-based": 2, "hand": 1, "redox": 1},
-    "C04": {"input-balanced": 4, "hand": 2, "ionic": 1, "mcs-based": 1, "rule-based": 1, "charge-trap": 1},
+    "C04": {"input-balanced": 4, "hand": 2, "ionic": 1, "mcs-based": 1, "rule-based": 1, "charge-trap": 1, "redox": 2},
     "C18": {"mcs-based": 2, "rule-based": 1, "input-balanced": 1, "declined": 1, "hand": 1},
 }
 FAULTY = {"C01": 0.5, "C02": 0.3, "C03": 0.5, "C04": 0.2, "C18": 0.4}
